@@ -174,6 +174,10 @@ type buildInfo struct {
 // the retry goes without it (no simulated disk, everything else unchanged).
 var dropDiskSeam bool
 
+// droppedOptional names optional harness files (zz_vsim_opt_*_test.go) that did
+// not compile against the program under test.
+var droppedOptional = map[string]bool{}
+
 func cacheDir(fp string) string { return filepath.Join(verifDir, ".cache", fp) }
 
 // ensureBuilt builds (or finds in the cache) the harness binaries for the
@@ -233,6 +237,15 @@ func ensureBuilt(names []string, race bool) (string, *buildInfo) {
 					die(2, "reset file for %s: %v", d, err)
 				}
 				overlay[filepath.Join(repoDir, d, "zz_vsim_reset_test.go")] = rf
+				// optional harness files (zz_vsim_opt_*_test.go): each is dropped when it
+				// does not compile against a changed program
+				if ents, err := os.ReadDir(filepath.Join(verifDir, "vsim", "harness", "apps", n)); err == nil {
+					for _, e := range ents {
+						if nm := e.Name(); strings.HasPrefix(nm, "zz_vsim_opt_") && strings.HasSuffix(nm, "_test.go") && !droppedOptional[nm] {
+							overlay[filepath.Join(repoDir, d, nm)] = filepath.Join(verifDir, "vsim", "harness", "apps", n, nm)
+						}
+					}
+				}
 			}
 		}
 		// scratch go.mod / go.sum
@@ -333,6 +346,20 @@ func ensureBuilt(names []string, race bool) (string, *buildInfo) {
 						exclude[rel] = true
 						info.Degraded = append(info.Degraded, rel)
 						dropped = true
+					}
+				}
+			}
+		}
+		if !dropped {
+			for _, line := range strings.Split(failed, "\n") {
+				if i := strings.Index(line, "zz_vsim_opt_"); i >= 0 {
+					if j := strings.Index(line[i:], "_test.go"); j >= 0 {
+						nm := line[i : i+j+len("_test.go")]
+						if !droppedOptional[nm] {
+							droppedOptional[nm] = true
+							dropped = true
+							info.Degraded = append(info.Degraded, "optional harness file "+nm+" (the program no longer fits it)")
+						}
 					}
 				}
 			}
